@@ -33,6 +33,7 @@ for old,new in m.items():
     if msg.startswith('verif hook') and new not in hooks: hooks.append(new)
 json.dump(hooks,open('gen/hook_commits.json','w'))
 PY
+python3 tools/repin.py >/dev/null
 python3 gen/manifest.py
 for p in $props; do ./check $p --tier quick || true; done
 git add -A; git commit -qm "$n merged: $props claimed; findings folded; evidence from /repo"
